@@ -115,6 +115,19 @@ def step (_ : Unit) (j : Json) : Except String (Unit × Json × List Fired) := d
     | _, _ => mkObj [("err", js "model: malformed ICS-23 proof")]
   -- ===== bridge verification of the IMPLEMENTATION's proof against the committed block =====
   let ierr := (jstr out "err").toOption.getD "?"
+  -- the EVM proof bytes, decoded by the harness with the bridge contract's layout, must carry exactly the proof above
+  let ievm := out.getObjVal? "evm"
+  let mout := match ievm with
+    | .ok e => mout.setObjVal! "evm" e
+    | _ => mout
+  match ievm with
+  | .ok e =>
+    let keys := ["err", "ms", "parts", "common", "sigs", "version", "paths", "blockHeight"] ++ (if kind == "count" then ["count"] else ["result", "resultRid"])
+    let bad := keys.filter fun k => !jsonEq ((out.getObjVal? k).toOption.getD Json.null) ((e.getObjVal? k).toOption.getD Json.null)
+    if !bad.isEmpty then
+      fired := fired ++ [{ name := "evm_proof_bytes_do_not_carry_the_proof", detail := mkObj [("fields", jl (bad.map js)),
+        ("evmErr", (e.getObjVal? "err").toOption.getD Json.null)] }]
+  | _ => pure ()
   if ierr != "" then
     fired := fired ++ [{ name := "no_proof_for_committed_data", detail := js ierr }]
   else
